@@ -154,9 +154,88 @@ func VerifH_C03_EncryptDecrypt() {
 			vEncDec(c, c.EncSk, level, tag+"-sk")
 			vEncDec(c, c.EncPk, level, tag+"-pk")
 			vEncZeroDegree0(c, level, tag)
+			vEncVariants(c, level, tag)
 		}
 	}
 	vCover("C03-reached")
+}
+
+// Variants of the encryption call that the plain round trip does not exercise:
+//   - secret-key encryption adds exactly the freshly sampled error (coefficient +-1 of a single error atom per
+//     coefficient: nothing scales it), also for a plaintext in Montgomery representation;
+//   - a ciphertext object allocated above the plaintext level is brought down to it;
+//   - a decryptor re-keyed with WithKey decrypts under the new key (and no longer under the old one).
+func vEncVariants(c *vCtx, level int, tag string) {
+	params := c.Params
+	rQ := params.RingQ().AtLevel(level)
+	for _, mont := range []bool{false, true} {
+		name := tag + "-sk"
+		if mont {
+			name += "-montgomery-plaintext"
+		}
+		pt := NewPlaintext(params, level)
+		vFillAtoms(rQ, pt.Value, "m", vMessage)
+		pt.IsMontgomery = mont
+		ct := NewCiphertext(params, 1, level)
+		vAssert(c.EncSk.Encrypt(pt, ct) == nil, name+"-Encrypt-no-error")
+		out := NewPlaintext(params, level)
+		c.Dec.Decrypt(ct, out)
+		vAssert(out.IsMontgomery == mont && out.IsNTT == pt.IsNTT, name+"-representation-flags-kept")
+		d := rQ.NewPoly()
+		rQ.Sub(out.Value, pt.Value, d)
+		if pt.IsNTT {
+			rQ.INTT(d, d)
+		}
+		if mont {
+			rQ.IMForm(d, d)
+		}
+		if vIsAlgebraic() {
+			ok := true
+			for k, s := range rQ.SubRings[:level+1] {
+				ok = ok && vFreshNoiseOnly(d.Coeffs[k], s.Modulus)
+			}
+			vAssert(ok, name+"-error-of-a-fresh-encryption-is-the-sampled-error-itself")
+		} else {
+			z := rQ.NewPoly()
+			vAssertNoiseFree(rQ, d, z, false, 30, name+"-error-of-a-fresh-encryption-is-the-sampled-error-itself")
+		}
+	}
+	if level < params.MaxLevel() {
+		for ei, enc := range []*Encryptor{c.EncSk, c.EncPk} {
+			name := tag + []string{"-sk", "-pk"}[ei] + "-ciphertext-allocated-above-the-plaintext-level"
+			pt := NewPlaintext(params, level)
+			vFillAtoms(rQ, pt.Value, "m", vMessage)
+			ct := NewCiphertext(params, 1, params.MaxLevel())
+			vAssert(enc.Encrypt(pt, ct) == nil, name+"-Encrypt-no-error")
+			vAssert(ct.Level() == level, name+"-ciphertext-takes-the-plaintext-level")
+			if ct.Level() == level {
+				out := NewPlaintext(params, level)
+				c.Dec.Decrypt(ct, out)
+				vAssertNoiseFree(rQ, out.Value, pt.Value, params.NTTFlag(), 30, name+"-Dec-of-Enc-is-plaintext-up-to-noise")
+			}
+		}
+	}
+	// re-keyed decryptor
+	pt := NewPlaintext(params, level)
+	vFillAtoms(rQ, pt.Value, "m", vMessage)
+	enc2 := c.EncSk.WithKey(c.Sk2)
+	ct := NewCiphertext(params, 1, level)
+	vAssert(enc2.Encrypt(pt, ct) == nil, tag+"-rekeyed-Encrypt-no-error")
+	dec2 := c.Dec.WithKey(c.Sk2)
+	out := NewPlaintext(params, level)
+	dec2.Decrypt(ct, out)
+	vAssertNoiseFree(rQ, out.Value, pt.Value, params.NTTFlag(), 30, tag+"-decryptor-WithKey-decrypts-under-the-new-key")
+	if vIsAlgebraic() {
+		ct1 := NewCiphertext(params, 1, level)
+		vAssert(c.EncSk.Encrypt(pt, ct1) == nil, tag+"-Encrypt-no-error")
+		out1 := NewPlaintext(params, level)
+		dec2.Decrypt(ct1, out1)
+		ok := true
+		for k, s := range rQ.SubRings[:level+1] {
+			ok = ok && vEverySlotHasClass(out1.Value.Coeffs[k], s.Modulus, vUniform)
+		}
+		vAssert(ok, tag+"-decryptor-WithKey-no-longer-decrypts-under-the-old-key")
+	}
 }
 
 // vQuotientIsSmall (native): w = (c0 - c1 - m)·(pk0 - pk1)^-1 modulo the first prime has only small coefficients.
